@@ -54,7 +54,8 @@ class Obj:
 
 # ----------------------------------------------------------------------------------------------- pools
 POOL = {
-    "int": [0, 1, 2, 3, -1, 5, 7, 255, 256, 2 ** 40, 2 ** 70],
+    # incl. neighbours that coincide after float(): an order key computed through float() cannot tell them apart
+    "int": [0, 1, 2, 3, -1, 5, 7, 255, 256, 2 ** 40, 2 ** 70, 2 ** 53, 2 ** 53 + 1, 2 ** 63 - 1, 2 ** 63, 2 ** 53, 2 ** 53 + 1],
     "bool": [True, False],
     "float": [0.0, 1.0, 2.0, 0.5, -1.5, 3.25, 1e10, -0.0],
     "complex": [1j, 1 + 2j, complex(1, 0), -1 + 0.5j, 2j],
